@@ -431,6 +431,29 @@ pub fn run(a: &Args) {
             } } }
         }
     }
+    // Track[6] in IS_STA / IS_RST: the short name of every configuration the library knows (its own Track::code() list), NUL-padded,
+    // placed in a reference frame built from the transcription: the frame decodes, shows that configuration, and re-encodes identically
+    for sname in ["IS_STA", "IS_RST"] { if let Some(sp) = spec.structs.iter().find(|x| x.name == sname) {
+        let Some(ti) = sp.fields.iter().position(|f| f.spath == "Track") else { continue };
+        let off = 2 + sp.fields[..ti].iter().map(|f| enc_field(f, None, 0).len()).sum::<usize>();
+        for code in crate::gen::tracks::TRACK_CODES.iter() { for compressed in [true, false] {
+            let asg = Asg { fixed: BTreeMap::new(), rows: vec![], text: vec![], words: vec![] };
+            let Some(mut f) = build(sp, &asg, &spec, compressed) else { continue };
+            if off + 6 > f.len() { continue; }
+            let mut v = code.as_bytes().to_vec(); v.resize(6, 0); f[off..off + 6].copy_from_slice(&v);
+            st.evaluations += 1; st.bump("vectors:track short names");
+            let id = format!("{} {}", mode_tag(compressed), hex(&f));
+            match decode_buf(compressed, &f) {
+                Dec::Got(p, _) => {
+                    let dbg = format!("{:?}", p); obs.checked += 1;
+                    let shown = dbg.split("track: ").nth(1).map(|x| x.chars().take_while(|c| c.is_ascii_alphanumeric()).collect::<String>()).unwrap_or_default();
+                    if shown.to_ascii_uppercase() != *code { st.fail(format!("[C02 {sname}] Track = {code:?} is read back as `{shown}`"), id.clone()); }
+                    match encode_p(compressed, &p) { Enc::Ok(e) if e == f => {}, Enc::Ok(e) => st.fail(format!("[C02 {sname}] Track = {code:?} re-encodes as {}", hex(&e[off..(off + 6).min(e.len())])), id.clone()), _ => st.fail(format!("[C02 {sname}] Track = {code:?}: the decoded packet does not encode"), id.clone()) }
+                },
+                d => st.fail(format!("[C02 {sname}] a frame whose Track field holds the short name {code:?} is not decoded: {}", crate::wire::cls_string(&d)), id.clone()),
+            }
+        } }
+    } }
     st.add("observations:value compared through the public fields", obs.checked);
     st.add("observations:field not observable through Debug (opaque types, addresses, unnamed enumerants)", obs.unobservable);
     st.rule = "reference frames built from the dumped specification transcription by a table-driven encoder: per packet type the all-default frame, every non-spare field set to each enumerant / single flag bit and all bits / boundary integers with distinct byte patterns / texts / times, arrays of 0..max elements with element fields varied, variable texts and word arrays, both size modes; each frame must decode to its own type, show the carried value under the implementation's field name, and re-encode byte for byte; distinct = distinct reference frames".into();
